@@ -301,7 +301,34 @@ def rule_selection(ctx):
     for b in want:
         ctx.check(R, "report/%s/present" % b, b in seen, "report kind missing")
     t = render(fn["body"]).replace(" ", "")
-    ctx.check(R, "underscore-skipped", t.count('if(source.to_string()=="_"){continue;}') == 2, "", site(SE, fn))
+    # `_` is skipped: every report issued from a loop over definitions / declarations is under `<name> != "_"`
+    def neg_atoms(c):
+        """the atoms known to be false on the path (a false `a || b` makes both false)"""
+        if c[0] != "if" or c[2]:
+            return []
+        out, st = [], [strip(c[1])]
+        while st:
+            x = st.pop()
+            if x["k"] == "Binary" and x["op"] == "||":
+                st += [strip(x["l"]), strip(x["r"])]
+            else:
+                out.append(render(x).replace(" ", ""))
+        return out
+
+    n_us = 0
+    missing_us = []
+    for p in pushes:
+        cs_f = conditions_to(fn["body"], p) or []
+        if not any(c[0] == "loop" for c in cs_f):
+            continue
+        n_us += 1
+        from pathcond import _subst
+
+        le_p = {k_: v_ for k_, v_ in let_env(fn["body"], p).items() if strip(v_).get("k") == "MethodCall" and strip(v_)["method"] in ("to_string", "name", "clone")}
+        atoms = [a_ for c in cs_f for a_ in neg_atoms((c[0], _subst(c[1], le_p), c[2]) if c[0] == "if" else c)]
+        if not any(re.fullmatch(r'\(?\w+(\.name\(\))?(\.to_string\(\))?=="_"\)?|\(?"_"==\w+(\.name\(\))?(\.to_string\(\))?\)?', a_) for a_ in atoms):
+            missing_us.append(render(p["args"][0])[:40])
+    ctx.check(R, "underscore-skipped", n_us >= 2 and not missing_us, "reports issued without the `_` exemption: %s (of %d)" % (missing_us, n_us), site(SE, fn))
 
 
 def use_class_table(arm_body, varname):
